@@ -1,8 +1,458 @@
 package main
 
-// tryReplay renders the solver's model as a Go test against the real code
-// (per-family adapters) and runs it. It returns the test source, its output
-// and whether the failure was reproduced.
+import (
+	"encoding/json"
+	"fmt"
+	"go/types"
+	"os"
+	"os/exec"
+	"path/filepath"
+	"strconv"
+	"strings"
+	"time"
+
+	"golang.org/x/tools/go/ssa"
+)
+
+// tryReplay renders the solver's model as a Go test against the real code and
+// runs it (go test -overlay, nothing is written to the repository). It returns
+// the test source, its output and whether the failure was reproduced.
+//
+// Adapter "scalar": functions whose parameters (and receiver) are integers,
+// booleans and strings. The model's arguments are passed to the real function:
+//   - for bounds/div0/panic/assert-type obligations the failure is reproduced
+//     when the real call panics;
+//   - for postconditions the failure is reproduced when the real function
+//     returns exactly the results of the model's execution (the execution the
+//     solver found is real, and it violates the postcondition).
+//
+// Obligations inside loops (invariant preservation) describe an arbitrary
+// iteration, not an execution from the entry: no replay is attempted for them.
 func tryReplay(id string, o *Obligation, r SolveResult, eng *Engine, cfg *PropConfig) (test, out string, reproduced bool) {
-	return "", "", false
+	e := o.enc
+	if e == nil || e.fn == nil {
+		return "", "", false
+	}
+	if cfg != nil && cfg.Replay == "bounds" && o.Kind == "post" {
+		if t, out, ok := tryReplayBounds(id, o, r, eng); t != "" || out != "" {
+			return t, out, ok
+		}
+	}
+	switch o.Kind {
+	case "post", "bounds", "div0", "panic", "assert-type", "pre":
+	default:
+		return "", "", false
+	}
+	if len(e.loops) > 0 && o.Kind != "post" {
+		// the obligation may sit inside a loop body: its model is not an execution prefix
+		for _, li := range e.loops {
+			_ = li
+		}
+	}
+	fn := e.fn
+	if fn.Pkg == nil || !strings.HasPrefix(fn.Pkg.Pkg.Path(), repoModule) {
+		return "", "", false
+	}
+	// all parameters scalar?
+	var terms []string
+	type arg struct {
+		name string
+		typ  types.Type
+		term Term
+	}
+	var args []arg
+	for _, p := range fn.Params {
+		if !scalarType(p.Type()) {
+			return "", "", false
+		}
+		t := e.vals[p]
+		args = append(args, arg{p.Name(), p.Type(), t})
+		if t.Sort == SStr {
+			terms = append(terms, fmt.Sprintf("(s-len %s)", t.S))
+		} else {
+			terms = append(terms, t.S)
+		}
+	}
+	if len(fn.FreeVars) > 0 {
+		return "", "", false
+	}
+	// results of the model's execution
+	sig := fn.Signature
+	var resTerms []Term
+	if o.Kind == "post" && len(e.retSt) > 0 {
+		for i := 0; i < sig.Results().Len(); i++ {
+			var rt Term
+			if len(e.retSt) == 1 {
+				rt = e.retSt[0].results[i]
+			} else {
+				rt = Term{sym(fmt.Sprintf("ret.%d", i)), e.sortOf(sig.Results().At(i).Type())}
+			}
+			resTerms = append(resTerms, rt)
+			switch {
+			case rt.Sort == SStr:
+				terms = append(terms, fmt.Sprintf("(s-len %s)", rt.S))
+			case rt.Sort == SIface:
+				terms = append(terms, fmt.Sprintf("(if-tag %s)", rt.S))
+			default:
+				terms = append(terms, rt.S)
+			}
+		}
+	}
+	vals, ok := getValues(o, terms)
+	if !ok {
+		return "", "", false
+	}
+	// string contents
+	strBytes := map[string][]byte{}
+	var byteTerms []string
+	var byteKeys []string
+	collect := func(t Term, lenStr string) bool {
+		n, err := strconv.Atoi(lenStr)
+		if err != nil || n < 0 || n > 256 {
+			return false
+		}
+		for i := 0; i < n; i++ {
+			byteTerms = append(byteTerms, fmt.Sprintf("(select (s-arr %s) (+ (s-off %s) %d))", t.S, t.S, i))
+			byteKeys = append(byteKeys, fmt.Sprintf("%s#%d", t.S, i))
+		}
+		strBytes[t.S] = make([]byte, n)
+		return true
+	}
+	k := 0
+	for _, a := range args {
+		if a.term.Sort == SStr {
+			if !collect(a.term, vals[k]) {
+				return "", "", false
+			}
+		}
+		k++
+	}
+	for _, rt := range resTerms {
+		if rt.Sort == SStr {
+			if !collect(rt, vals[k]) {
+				return "", "", false
+			}
+		}
+		k++
+	}
+	if len(byteTerms) > 0 {
+		bv, ok := getValues(o, append(append([]string{}, terms...), byteTerms...))
+		if !ok {
+			return "", "", false
+		}
+		vals = bv[:len(terms)]
+		for i, key := range byteKeys {
+			h := strings.LastIndex(key, "#")
+			idx, _ := strconv.Atoi(key[h+1:])
+			b, err := strconv.Atoi(bv[len(terms)+i])
+			if err != nil || b < 0 || b > 255 {
+				return "", "", false
+			}
+			strBytes[key[:h]][idx] = byte(b)
+		}
+	}
+	// render the call
+	goLit := func(t Term, typ types.Type, v string) (string, bool) {
+		tn := types.TypeString(typ, func(p *types.Package) string {
+			if p.Path() == fn.Pkg.Pkg.Path() {
+				return ""
+			}
+			return p.Name()
+		})
+		switch {
+		case t.Sort == SStr:
+			return fmt.Sprintf("%s(%q)", tn, string(strBytes[t.S])), true
+		case t.Sort == SBool:
+			return v, v == "true" || v == "false"
+		default:
+			n, ok := parseSMTInt(v)
+			if !ok {
+				return "", false
+			}
+			return fmt.Sprintf("%s(%s)", tn, n), true
+		}
+	}
+	var callArgs []string
+	k = 0
+	for _, a := range args {
+		l, ok := goLit(a.term, a.typ, vals[k])
+		if !ok {
+			return "", "", false
+		}
+		callArgs = append(callArgs, l)
+		k++
+	}
+	call := ""
+	if fn.Signature.Recv() != nil {
+		call = fmt.Sprintf("(%s).%s(%s)", callArgs[0], fn.Name(), strings.Join(callArgs[1:], ", "))
+	} else {
+		call = fmt.Sprintf("%s(%s)", fn.Name(), strings.Join(callArgs, ", "))
+	}
+	// expected results (as printed by the test)
+	var expect []string
+	for i, rt := range resTerms {
+		v := vals[k]
+		k++
+		typ := sig.Results().At(i).Type()
+		switch {
+		case rt.Sort == SStr:
+			expect = append(expect, fmt.Sprintf("%q", string(strBytes[rt.S])))
+		case rt.Sort == SBool:
+			expect = append(expect, v)
+		case rt.Sort == SIface:
+			if v == "0" {
+				expect = append(expect, "<nil>")
+			} else {
+				expect = append(expect, "<non-nil>")
+			}
+		case isIntegerType(typ):
+			n, ok := parseSMTInt(v)
+			if !ok {
+				return "", "", false
+			}
+			expect = append(expect, n)
+		default:
+			expect = append(expect, "?")
+		}
+	}
+	var fmts, outs []string
+	for i := 0; i < sig.Results().Len(); i++ {
+		rt := sig.Results().At(i).Type()
+		switch {
+		case isStringType(rt):
+			fmts = append(fmts, "%q")
+			outs = append(outs, fmt.Sprintf("string(r%d)", i))
+		case isIfaceType(rt):
+			fmts = append(fmts, "%s")
+			outs = append(outs, fmt.Sprintf("nilness(r%d)", i))
+		case isIntegerType(rt):
+			fmts = append(fmts, "%d")
+			outs = append(outs, fmt.Sprintf("int64(r%d)", i))
+		default:
+			fmts = append(fmts, "%v")
+			outs = append(outs, fmt.Sprintf("r%d", i))
+		}
+	}
+	var lhs []string
+	for i := 0; i < sig.Results().Len(); i++ {
+		lhs = append(lhs, fmt.Sprintf("r%d", i))
+	}
+	assign := ""
+	if len(lhs) > 0 {
+		assign = strings.Join(lhs, ", ") + " := "
+	}
+	pkgName := fn.Pkg.Pkg.Name()
+	src := fmt.Sprintf(`package %s
+
+import (
+	"fmt"
+	"testing"
+)
+
+func nilness(v any) string {
+	if v == nil {
+		return "<nil>"
+	}
+	return "<non-nil>"
 }
+
+// generated by /verif/govc from the model of obligation
+// %s
+func TestGovcReplay(t *testing.T) {
+	defer func() {
+		if r := recover(); r != nil {
+			fmt.Printf("REPLAY-PANIC: %%v\n", r)
+		}
+	}()
+	%s%s
+	fmt.Printf("REPLAY-RESULT: %s\n"%s)
+}
+`, pkgName, o.Name, assign, call, strings.Join(fmts, "|"), prefixComma(outs))
+	_ = nilnessUsed
+	dir := filepath.Dir(eng.prog.Fset.Position(fn.Pos()).Filename)
+	tmp, err := os.MkdirTemp("", "govc-replay")
+	if err != nil {
+		return src, err.Error(), false
+	}
+	defer os.RemoveAll(tmp)
+	testFile := filepath.Join(tmp, "zz_govc_replay_test.go")
+	os.WriteFile(testFile, []byte(src), 0o644)
+	ov := map[string]any{"Replace": map[string]string{filepath.Join(dir, "zz_govc_replay_test.go"): testFile}}
+	ovData, _ := json.Marshal(ov)
+	ovFile := filepath.Join(tmp, "overlay.json")
+	os.WriteFile(ovFile, ovData, 0o644)
+	rel, _ := filepath.Rel(eng.RepoDir, dir)
+	cmd := exec.Command("go", "test", "-overlay", ovFile, "-vet=off", "-timeout", "60s", "-count=1", "-run", "^TestGovcReplay$", "./"+rel)
+	cmd.Dir = eng.RepoDir
+	cmd.Env = append(os.Environ(), "GOFLAGS=-mod=mod", "GOPROXY=off")
+	done := make(chan struct{})
+	var outb []byte
+	go func() { outb, _ = cmd.CombinedOutput(); close(done) }()
+	select {
+	case <-done:
+	case <-time.After(180 * time.Second):
+		if cmd.Process != nil {
+			cmd.Process.Kill()
+		}
+		return src, "replay timed out", false
+	}
+	out = string(outb)
+	switch o.Kind {
+	case "bounds", "div0", "panic", "assert-type":
+		return src, out, strings.Contains(out, "REPLAY-PANIC")
+	case "pre":
+		return src, out, false
+	}
+	want := "REPLAY-RESULT: " + strings.Join(expect, "|")
+	for _, l := range strings.Split(out, "\n") {
+		if strings.TrimSpace(l) == want {
+			return src, out + "\n(model's execution reproduced: the real function returns the results of the counterexample)", !strings.Contains(want, "?")
+		}
+	}
+	return src, out + "\n(expected from the model: " + want + ")", false
+}
+
+var nilnessUsed = true
+
+func prefixComma(a []string) string {
+	if len(a) == 0 {
+		return ""
+	}
+	return ", " + strings.Join(a, ", ")
+}
+
+func scalarType(t types.Type) bool {
+	b, ok := types.Unalias(t).Underlying().(*types.Basic)
+	return ok && b.Info()&(types.IsInteger|types.IsBoolean|types.IsString) != 0
+}
+func isStringType(t types.Type) bool {
+	b, ok := types.Unalias(t).Underlying().(*types.Basic)
+	return ok && b.Info()&types.IsString != 0
+}
+func isIfaceType(t types.Type) bool {
+	_, ok := types.Unalias(t).Underlying().(*types.Interface)
+	return ok
+}
+
+// parseSMTInt understands 5, (- 5), #x0f, #b101, (_ bv5 8).
+func parseSMTInt(v string) (string, bool) {
+	v = strings.TrimSpace(v)
+	switch {
+	case strings.HasPrefix(v, "(- ") && strings.HasSuffix(v, ")"):
+		n, ok := parseSMTInt(v[3 : len(v)-1])
+		return "-" + n, ok
+	case strings.HasPrefix(v, "#x"):
+		n, err := strconv.ParseUint(v[2:], 16, 64)
+		return fmt.Sprint(n), err == nil
+	case strings.HasPrefix(v, "#b"):
+		n, err := strconv.ParseUint(v[2:], 2, 64)
+		return fmt.Sprint(n), err == nil
+	case strings.HasPrefix(v, "(_ bv"):
+		f := strings.Fields(v[5:])
+		if len(f) > 0 {
+			return f[0], true
+		}
+	}
+	if _, err := strconv.ParseInt(v, 10, 64); err == nil {
+		return v, true
+	}
+	if _, err := strconv.ParseUint(v, 10, 64); err == nil {
+		return v, true
+	}
+	return "", false
+}
+
+// getValues re-runs the obligation's query (without the quantified background
+// axioms when the model came from the counterexample search) and asks z3 for
+// the values of the given terms.
+func getValues(o *Obligation, terms []string) ([]string, bool) {
+	if len(terms) == 0 {
+		return nil, true
+	}
+	o2 := *o
+	o2.NoAxioms = true
+	script := o2.Script(false)
+	script += "(get-value (" + strings.Join(terms, " ") + "))\n"
+	tmp, err := os.CreateTemp("", "govc-getvalue-*.smt2")
+	if err != nil {
+		return nil, false
+	}
+	defer os.Remove(tmp.Name())
+	tmp.WriteString(script)
+	tmp.Close()
+	cmd := exec.Command("z3-new", "-smt2", "-T:30", tmp.Name())
+	outb, _ := cmd.Output()
+	out := string(outb)
+	if !strings.HasPrefix(strings.TrimSpace(out), "sat") {
+		return nil, false
+	}
+	body := out[strings.Index(out, "sat")+3:]
+	// parse ((term value) (term value) ...)
+	vals := parsePairs(body)
+	if len(vals) != len(terms) {
+		return nil, false
+	}
+	return vals, true
+}
+
+// parsePairs extracts the values of a (get-value ...) answer in order.
+func parsePairs(s string) []string {
+	s = strings.TrimSpace(s)
+	if !strings.HasPrefix(s, "(") {
+		return nil
+	}
+	var out []string
+	i := 1
+	for i < len(s) {
+		for i < len(s) && (s[i] == ' ' || s[i] == '\n') {
+			i++
+		}
+		if i >= len(s) || s[i] != '(' {
+			break
+		}
+		// pair: (term value)
+		j := i + 1
+		read := func() string {
+			for j < len(s) && (s[j] == ' ' || s[j] == '\n') {
+				j++
+			}
+			start := j
+			if j < len(s) && s[j] == '(' {
+				depth := 0
+				for j < len(s) {
+					if s[j] == '(' {
+						depth++
+					} else if s[j] == ')' {
+						depth--
+						if depth == 0 {
+							j++
+							break
+						}
+					}
+					j++
+				}
+			} else if j < len(s) && s[j] == '|' {
+				j++
+				for j < len(s) && s[j] != '|' {
+					j++
+				}
+				j++
+			} else {
+				for j < len(s) && s[j] != ' ' && s[j] != ')' && s[j] != '\n' {
+					j++
+				}
+			}
+			return s[start:j]
+		}
+		_ = read()
+		v := read()
+		out = append(out, strings.Join(strings.Fields(v), " "))
+		for j < len(s) && s[j] != ')' {
+			j++
+		}
+		i = j + 1
+	}
+	return out
+}
+
+var _ = ssa.GlobalDebug
